@@ -72,6 +72,10 @@ def run_history_check(ctx, proof, hook, n_hist, length, rule, final_commit=False
     ctx.coverage["step_outcomes"] = {str(k): v for k, v in outcome.items()}
     ctx.coverage["distribution"] = {"%s/%s" % k: v for k, v in sorted(stats.items())}
     ctx.coverage["histories"] = n_hist
+    shapes = collections.Counter()
+    for run in runs:
+        shapes.update(run.shapes)
+    ctx.coverage["targeted_shapes"] = dict(shapes)
     if extra_evidence:
         ctx.coverage.update(extra_evidence)
     return common.finish_with_proof(ctx, proof, rule=rule)
